@@ -17,7 +17,7 @@
 (***************************************************************************)
 EXTENDS Naturals, Integers, Sequences, FiniteSets, TLC
 
-CONSTANTS VsCases, SdCases, HlCases, BtCases, CpCases, MaxOps, KeepHist
+CONSTANTS VsCases, SdCases, HlCases, BtCases, CpCases, NbCases, MaxOps, KeepHist
 VARIABLES st, out, hist
 vars == <<st, out, hist>>
 view == <<st>>
@@ -56,7 +56,15 @@ BulkBits(c) == /\ st = "init" /\ c \in BtCases
 BulkComp(c) == /\ st = "init" /\ c \in CpCases
                /\ Log("BulkComp", c, [match |-> TRUE])
                /\ UNCHANGED st
-Next == \/ (\E c \in VsCases : BulkVS(c)) \/ (\E c \in SdCases : BulkSD(c)) \/ (\E c \in HlCases : BulkHL(c))
+\* an n-bit dataset longer than the coder's 1024-byte expansion buffer: n values (by formula) of a w-bit type stored with
+\* (start bit, length, sign extension, fill) are written whole; after reopen the dataset is read in slabs of unequal
+\* sizes -- consecutive (the position does not move between them), overlapping backward, skipping forward -- and every
+\* value must be the documented projection (specs/NBit.tla, Proj) of what was written
+BulkNBit(c) == /\ st = "init" /\ c \in NbCases
+               /\ Log("BulkNBit", c, [match |-> TRUE])
+               /\ UNCHANGED st
+Next == \/ (\E c \in NbCases : BulkNBit(c))
+        \/ (\E c \in VsCases : BulkVS(c)) \/ (\E c \in SdCases : BulkSD(c)) \/ (\E c \in HlCases : BulkHL(c))
         \/ (\E c \in BtCases : BulkBits(c)) \/ (\E c \in CpCases : BulkComp(c))
 Spec == Init /\ [][Next]_vars
 Bound == Len(hist) < MaxOps
